@@ -699,36 +699,18 @@ func c04Misc(r *Run, m *ServerModel, hinfo map[*FuncInfo]*HandlerInfo) {
 	}
 	// CanOpen is true exactly for regular/dir/pipe/block/char.
 	if fi := r.mustFunc("r4", "p9", "CanOpen"); fi != nil {
+		// the set of file types CanOpen accepts, however it is written (disjunction of IsX(),
+		// switch on FileType(), ...)
+		mt := &modeTab{l: r.L, info: info}
+		accepted, okShape := mt.boolFunc(fi, mt.envOf(fi), 0)
 		set := map[string]bool{}
-		okShape := len(fi.Decl.Body.List) == 1
-		if okShape {
-			ret, ok := fi.Decl.Body.List[0].(*ast.ReturnStmt)
-			okShape = ok && len(ret.Results) == 1
-			if okShape {
-				var walk func(e ast.Expr)
-				walk = func(e ast.Expr) {
-					e = unparen(e)
-					if be, ok := e.(*ast.BinaryExpr); ok && be.Op == token.LOR {
-						walk(be.X)
-						walk(be.Y)
-						return
-					}
-					if c, ok := e.(*ast.CallExpr); ok && len(c.Args) == 0 {
-						k := calleeKey(info, c)
-						if strings.HasPrefix(k, "p9.FileMode.Is") {
-							set[strings.TrimPrefix(k, "p9.FileMode.")] = true
-							return
-						}
-					}
-					okShape = false
-				}
-				walk(ret.Results[0])
-			}
+		for t := range accepted {
+			set[map[uint64]string{0o140000: "IsSocket", 0o120000: "IsSymlink", 0o100000: "IsRegular", 0o60000: "IsBlockDevice", 0o40000: "IsDir", 0o20000: "IsCharacterDevice", 0o10000: "IsNamedPipe"}[t]] = true
 		}
 		got := strings.Join(sortedKeys(set), ",")
 		want := "IsBlockDevice,IsCharacterDevice,IsDir,IsNamedPipe,IsRegular"
 		if !okShape {
-			r.undecided("r4", "p9.CanOpen", fi.Decl.Pos(), "body is not a disjunction of FileMode.IsX() tests")
+			r.undecided("r4", "p9.CanOpen", fi.Decl.Pos(), "body cannot be reduced to a set of accepted file types")
 		} else {
 			r.check(got == want, "r4", "p9.CanOpen", fi.Decl.Pos(), "openable types = {"+got+"}", "openable types are {"+got+"}, the property allows exactly {"+want+"}")
 		}
